@@ -1,15 +1,17 @@
 #!/bin/bash
 # background thorough sweep in a vp-run snapshot: build once (while /repo is clean), then call the binary directly
+# usage: bg_thorough.sh <seed> [property...]   (VERIF_THOROUGH_SCALE is taken from the environment)
 export CARGO_NET_OFFLINE=true
 ROOT=$(pwd); export VERIF_ROOT=$ROOT
 mkdir -p out evidence
 ./check setup || exit 3
-echo "BUILT $(date +%T)"
-for SEED in "$@"; do
- for P in C01 C02 C03 C04 C05 C06 C07 C08 C09 C10 C11 C12 C13 C14 C15 C16 C17 C18 C19 C20; do
+export VERIF_MIRI=$(grep -q '^MIRI-DRIVER-OK' out/miri_build.log 2>/dev/null && echo 1 || echo 0)
+echo "BUILT $(date +%T) miri=$VERIF_MIRI scale=${VERIF_THOROUGH_SCALE:-default}"
+SEED="$1"; shift
+PROPS="$@"; [ -z "$PROPS" ] && PROPS="C01 C02 C03 C04 C05 C06 C07 C08 C09 C10 C11 C12 C13 C14 C15 C16 C17 C18 C19 C20"
+for P in $PROPS; do
   S=$(date +%s)
   VERIF_SEED=$SEED harness/target/verif/goml-verif run $P thorough > out/bg_${P}_${SEED}.log 2>&1; RC=$?
   E=$(date +%s)
   echo "$P thorough seed=$SEED exit=$RC $((E-S))s known=$(grep -c '^KNOWN-FINDING' out/bg_${P}_${SEED}.log) $(grep -E '^VIOLATION|^INCONCLUSIVE' out/bg_${P}_${SEED}.log | head -3 | tr '\n' ' ')"
- done
 done
